@@ -62,3 +62,28 @@ Example C09_nonvacuous :
   step idH cf {| s_sess := Some (0%nat, true); s_next := 1 |} (OSend m (Some 2%N) []) =
     ({| s_sess := Some (0%nat, true); s_next := 1 |}, [EvWrite 0 [x93; xa1; x74; x05; x80] [x93; xa1] 0], RErr).
 Proof. vm_compute. reflexivity. Qed.
+
+(* ---- the websocket client (WsClient.v): the message is encoded into a private buffer, then
+   handed to the connection in ONE Write whose error is the result of Send / SendRaw ---- *)
+From FF Require Import model.Lts model.WsClient model.WsClientSpec.
+From FF Require proofs.WsClient_Proofs.
+
+(* a Write event is the single write of a send, carries the whole encoding (resp. exactly the
+   caller's bytes), and the call returns ok (0) iff that write succeeded, else the write error (4) *)
+Theorem C09_ws_one_write_reported : forall progs plan readers c t c' s d,
+  WsClient_Proofs.reach false progs plan readers c ->
+  xs_step false (length progs) c t = Some (c', Some (XEvWrite s d)) ->
+  exists l w ops, nth_error (thr c) t = Some l /\ (t < length progs)%nat /\ x_pc l = XSendWrite s /\
+     (x_ops l = XSend (Some d) w :: ops \/ x_ops l = XSendRaw d w :: ops) /\
+     nth_error (thr c') t = Some {| x_pc := XIdle; x_ops := ops;
+        x_rets := x_rets l ++ [if w && negb (WsClient_Proofs.closed (glob c) s) then 0%N else 4%N] |} /\
+     xg_frames (glob c') = (s, t, d) :: xg_frames (glob c).
+Proof. exact WsClient_Proofs.one_frame. Qed.
+Print Assumptions C09_ws_one_write_reported.
+
+(* a message that cannot be encoded never produces a Write *)
+Theorem C09_ws_unencodable_clean : forall progs plan readers c t l w ops c' e,
+  WsClient_Proofs.reach false progs plan readers c -> nth_error (thr c) t = Some l -> x_ops l = XSend None w :: ops ->
+  xs_step false (length progs) c t = Some (c', e) -> WsClient_Proofs.is_write e = false.
+Proof. exact WsClient_Proofs.encode_error_writes_nothing. Qed.
+Print Assumptions C09_ws_unencodable_clean.
